@@ -290,6 +290,10 @@ func Main[C any](s Spec[C], args []string) int {
 	bySig := map[string]*found{}
 	var sigOrder []string
 	var unknownViol int64
+	maxViol := int64(50)
+	if v, err := strconv.ParseInt(os.Getenv("VERIF_MAXVIOL"), 10, 64); err == nil && v > 0 {
+		maxViol = v
+	}
 	var samples []json.RawMessage
 	internalErr := ""
 	var wg sync.WaitGroup
@@ -350,7 +354,7 @@ func Main[C any](s Spec[C], args []string) int {
 							unknownViol++
 						}
 					}
-					if unknownViol >= 50 {
+					if unknownViol >= maxViol {
 						stop.Store(true)
 					}
 					mu.Unlock()
